@@ -1,4 +1,5 @@
 import TrackVerif.Conv.Lemmas
+import TrackVerif.Conv.Idem
 import TrackVerif.Conv.NumRat
 import Mathlib.Algebra.Order.Field.Rat
 import Mathlib.Tactic.Linarith
@@ -49,6 +50,29 @@ theorem interpolated (k : Predictor) (start t : Int) (xs : List α) (chans : Lis
         (obdSet o vals).bind fun o' => .ok { r with obd := some o' } := by
   unfold predictRecord
   simp [ho, hu, hg, ht]
+
+/-- `PredictOBD` fills the session it is given in place; doing it again (same predictor) changes
+    nothing: the predicted values are a function of the fresh readings, which it never touches -/
+theorem prediction_is_idempotent (k : Predictor) (s s' : Session α) (h : predictOBD k s = .ok s') :
+    predictOBD k s' = .ok s' :=
+  predictOBD_idem k s s' h
+
+/-- hence a session that has been converted before converts to the same database again (the same
+    options; the start date does not matter, it plays no part in the prediction) -/
+theorem reconversion_gives_the_same_database (env : Env α) (o : Opts) (s s' : Session α)
+    (h : predicted o s = .ok s') : lapTimer env o s' = lapTimer env o s := by
+  unfold lapTimer
+  have hv : s'.vehicle = s.vehicle := by
+    unfold predicted at h
+    cases hp : o.predictor with
+    | none => simp [hp] at h; rw [h]
+    | some k => simp only [hp] at h; exact predictOBD_vehicle k s s' h
+  have hi : predicted o s' = .ok s' := by
+    unfold predicted at h ⊢
+    cases hp : o.predictor with
+    | none => rfl
+    | some k => simp only [hp] at h ⊢; exact predictOBD_idem k s s' h
+  rw [hi, h, hv]
 
 /-- scanning rows none of which is a fresh reading collects nothing -/
 theorem scanFresh_none (recs : List (Record α)) (h : ∀ r ∈ recs, isFresh r = false) (sc : Scan α) :
